@@ -17,7 +17,7 @@ DONE = 'done'
 
 
 class Gate:
-    __slots__ = ('label', 'fut', 'gid', 'kind', 'outcome', 'run', 'node', 'prio', 'fired')
+    __slots__ = ('label', 'fut', 'gid', 'kind', 'outcome', 'run', 'node', 'prio', 'fired', 'action', 'abort')
 
     def __init__(self, label, fut, gid, kind, outcome, run, node):
         self.label = label
@@ -29,6 +29,8 @@ class Gate:
         self.node = node
         self.prio = 0.0
         self.fired = False
+        self.action = None
+        self.abort = None
 
 
 def _release(gate: Gate) -> None:
